@@ -169,6 +169,26 @@ func (r *vReader) Watch_(gvk schema.GroupVersionKind) { r.Watch = append(r.Watch
 // vCache is the dynamicCache double: a reader plus Watch.
 type vCache struct {
 	vReader
+	// Strict: like the real dynamic cache, reading a kind that was not watched (in this process) fails
+	Strict bool
+}
+
+var errNotWatched = errors.New("cache access before calling Watch, can not read objects")
+
+func (c *vCache) Get(ctx context.Context, key client.ObjectKey, obj client.Object, opts ...client.GetOption) error {
+	if c.Strict {
+		kind := obj.GetObjectKind().GroupVersionKind()
+		watched := false
+		for _, w := range c.vReader.Watch {
+			if w == kind {
+				watched = true
+			}
+		}
+		if !watched {
+			return errNotWatched
+		}
+	}
+	return c.vReader.Get(ctx, key, obj, opts...)
 }
 
 func (c *vCache) Watch(_ context.Context, _ client.Object, obj runtime.Object) error {
